@@ -116,8 +116,10 @@ def check_case(case, ctx=None):
     Null, Handling = _handlers()
     prog = case["prog"]
     f = G.build(prog, isp="bind", isp_prim=_prim())
-    f_ref = G.build(prog, isp="inline")
     isp = G.has_isp(prog)
+    # ordinary evaluation: the same Python function called directly; with an initial-style primitive
+    # in the program the reference is the pure-JAX build that calls the wrapped function directly
+    f_ref = G.build(prog, isp="inline") if isp else f
     val = G.input_values(prog, "val")
     alt = G.input_values(prog, "alt")
     if case.get("pyscalar"):
